@@ -2037,12 +2037,10 @@ bn_l_shift(bn_p bn, size_t bits) {
 
 	if (NULL == bn || 0 == bn->digits)
 		return;
-#if 0
-	if ((bn->count * BN_DIGIT_BITS) <= bits) {
+	if ((bn->count * BN_DIGIT_BITS) <= bits) { /* Everything is shifted out. */
 		bn_assign_zero(bn);
 		return;
 	}
-#endif
 	digits = MIN(bn->count, (bn->digits + 1 + (bits / BN_DIGIT_BITS)));
 	bn_init_digits__int(bn, digits);
 	bn_digits_l_shift(bn->num, digits, bits);
@@ -2054,12 +2052,10 @@ bn_r_shift(bn_p bn, size_t bits) {
 
 	if (NULL == bn || 0 == bn->digits)
 		return;
-#if 0
-	if ((bn->digits * BN_DIGIT_BITS) <= bits) {
+	if ((bn->digits * BN_DIGIT_BITS) <= bits) { /* Everything is shifted out. */
 		bn_assign_zero(bn);
 		return;
 	}
-#endif
 	bn_digits_r_shift(bn->num, bn->digits, bits);
 	bn_update_digits__int(bn, bn->digits);
 }
